@@ -6,8 +6,8 @@
    correspondence on the fragment lists the real fragment() produced (verif hook). *)
 From Coq Require Import List String ZArith NArith Bool.
 Import ListNotations.
-From DV Require Import Model.Tree Model.Tables Model.Skeleton Model.FragSkel Model.Link Model.Restore
-     Proofs.LinkProofs Proofs.LinkPanic Proofs.RestoreProofs
+From DV Require Import Model.Tree Model.Tables Model.Skeleton Model.FragSkel Model.Values Model.Link Model.Fragment Model.Restore
+     Proofs.LinkProofs Proofs.LinkPanic Proofs.FragProofs Proofs.RestoreProofs
      Gen.Universe Gen.DataTbl Gen.FragTbl Gen.RestTbl Gen.DecTbl.
 Local Open Scope string_scope.
 Local Open Scope list_scope.
@@ -25,6 +25,15 @@ Proof. vm_compute. reflexivity. Qed.
    decorator emitted them (up to File.End, File.Imports and the FuncDecl signature points, which
    exist on one side only): what is attached to point p of node n is rendered at point p of n. *)
 Theorem C03_restorer_mirrors_decorator : frag_rest_coherent frag_tbl rest_tbl universe = true.
+Proof. vm_compute. reflexivity. Qed.
+
+(* Identifier text, literal text and tokens survive both conversions: every string, token.Token
+   and ChanDir field of every dst kind is assigned exactly once by the decorator, as a plain copy
+   of the go/ast field of the same name, and copied back by the restorer (Ident.Path, which the
+   resolver computes, is the one exception); bool fields are copies, position-validity tests of the
+   field of the same name, or constants. *)
+Theorem C03_token_values_survive_both_conversions :
+  values_roundtrip universe dec_tbl rest_tbl && bools_derived universe dec_tbl = true.
 Proof. vm_compute. reflexivity. Qed.
 
 (* Every case starts and ends with a decoration point: a node always offers a point before its
@@ -61,6 +70,22 @@ Proof. exact link_keeps_every_comment. Qed.
 Theorem C03_link_does_not_panic : forall fs, seg_ok fs = true -> l_panic (link fs) = false.
 Proof. exact link_no_panic. Qed.
 
+(* fragment() ; link(), for every positioned go/ast tree, every comment list and every line
+   table (Model/Fragment.v: the interpreter of the fragment table with the cursor arithmetic,
+   comment fragments, newline discovery, the stable sort and the indent pass -- corresponded
+   against the real fragment() on every run): the sort neither loses nor invents a fragment, and
+   if link does not panic every comment of the file is in the decoration list of some
+   (node, point). *)
+Theorem C03_sort_keeps_every_fragment : forall l, Permutation.Permutation (stable_sort l) l.
+Proof. exact stable_sort_perm. Qed.
+
+Theorem C03_decorate_keeps_every_comment :
+  forall tbl stmts decls fi t comments frs err,
+  fragment tbl stmts decls fi t comments = (frs, err) ->
+  l_panic (link (map snd frs)) = false ->
+  forall pos d, In (pos, d) comments -> in_decs (l_decs (link (map snd frs))) d.
+Proof. exact decorate_keeps_every_comment. Qed.
+
 (* The restorer's state machine renders each comment decoration exactly as often as it occurs
    in the decoration lists it is given (C04): nothing is dropped or duplicated on the way out. *)
 Theorem C03_restorer_renders_each_comment_once :
@@ -89,8 +114,11 @@ Proof. vm_compute. repeat split; reflexivity. Qed.
 
 Print Assumptions C03_fragments_cover_every_part.
 Print Assumptions C03_restorer_mirrors_decorator.
+Print Assumptions C03_token_values_survive_both_conversions.
 Print Assumptions C03_every_node_bracketed_by_points.
 Print Assumptions C03_every_comment_attached.
 Print Assumptions C03_every_comment_kept.
 Print Assumptions C03_link_does_not_panic.
+Print Assumptions C03_sort_keeps_every_fragment.
+Print Assumptions C03_decorate_keeps_every_comment.
 Print Assumptions C03_restorer_renders_each_comment_once.
